@@ -137,6 +137,11 @@ def judge_solve(case):
     if case.get("pol0") is not None and not np.array_equal(pol0, np.array(case["pol0"])):
         out["fail"] = "initial policy differs from problem.initial_policy"
         return out
+    if case.get("pol0") is None:
+        r0 = (rew * prob).sum(-1)
+        if (r0.max(1) - r0[np.arange(S), pol0]).max() > B.tol(np.abs(r0).max(), 1e-9):
+            out["fail"] = "no initial policy supplied, but the first policy %s does not maximise immediate expected reward (initial values %s)" % (pol0.tolist(), V0.tolist())
+            return out
     ref = B.ref_pi(nxt, rew, prob, g, eps, test, pol0, V0, limit, case["max_eval"], case.get("reset", False), exact=case.get("exact", False))
     out["sweeps"] = ref["n"]
     n = o1["iteration"]
